@@ -1,6 +1,8 @@
 SPECIFICATION TraceSpec
 CONSTANTS
   LargeHold = 240
+  PeerHolds = {0, 3, 9}
+  Ticks = {1}
 CONSTRAINT TraceConstraint
 POSTCONDITION TraceAccepted
 CHECK_DEADLOCK FALSE
